@@ -16,6 +16,13 @@
   (`fix = false`) the statement is false — `revival_counterexample`, by
   `decide` — and what remains true is `mutes_eq_bruteforce_partial`: the
   invariant survives every merge that does not revive an expired silence.
+
+  The specification `activeMatching` evaluates the matchers *stored in the
+  silence* (what `Query` and the API show), not the compiled matcher index.
+  Continued in AM.Props.C02I (one `Mutes` call as the code runs it: store
+  operations interleaved between its steps) and AM.Props.C02M (the matchers
+  stored under an id never change through the API path; what `Merge` relies
+  on; `mutes_eq_bruteforce_api` without any assumption on matchers).
 -/
 import AM.Lemmas.SilencerInv
 
